@@ -431,7 +431,10 @@ void *FilePreferenceSaverThread::Run() {
 
 
 bool FilePreferenceSaverThread::Join(void *ptr) {
-  m_ss.Terminate();
+  // SelectServer::Terminate() does nothing unless the loop is already running,
+  // and Start() returns before our thread has necessarily entered m_ss.Run().
+  // Run Terminate() on the saver thread itself, so it can't be lost.
+  m_ss.Execute(NewSingleCallback(&m_ss, &ola::io::SelectServer::Terminate));
   return Thread::Join(ptr);
 }
 
